@@ -485,6 +485,7 @@ MACRO = set('MCRSF')
 
 class C15(vlib.PropertyCheck):
     id = 'C15'
+    env_passes = False     # the runtime debug level is part of this property's cases
     family = 'c15'
     harness = 'c15.c'
     nontrivial_rule = ('a history is non-trivial when the model does not fault, at least one allocation was recorded '
